@@ -128,6 +128,25 @@ def run(chk):
                 cc = gt.make_case(dict(cfg, cap=2), X, None)
                 if cc["well_conditioned"]:
                     terms.append(cc["term"])
+        # ---------------------------------------------------------------- one public M-step on hard-assignment statistics with INTEGER counts (as a
+        #                                                                  labelling gives them), one of them 0: finite, valid parameters
+        if i % 3 == 1:
+            from bob.learn.em import GMMStats
+            from bob.learn.em import gmm as gmm_module
+            lab_ = np.argmin(((mu0[:, None, :] - X[None, :, :]) ** 2).sum(-1), axis=0)
+            hs = GMMStats(K, D)
+            hs.n = np.bincount(lab_, minlength=K).astype(np.int64)
+            hs.sum_px = np.array([X[lab_ == c_].sum(axis=0) for c_ in range(K)])
+            hs.sum_pxx = np.array([(X[lab_ == c_] ** 2).sum(axis=0) for c_ in range(K)])
+            hs.t = int(N)
+            hs.log_likelihood = -1.0
+            mh, _pr = gt.build_machine(dict(w=np.ones(K) / K, mu=mu0, var=var0, thr=thr, sw=sw, eps=eps, cap=1, cthr=None))
+            gmm_module.m_step([hs], mh)
+            chk.count(1, key=("gmm", "ml m_step, integer counts", kind, sw))
+            why = valid_gmm(mh, X, eps, K * eps / N)
+            if why:
+                chk.fail("ML M-step on hard-assignment statistics with integer-typed counts %s (%s data, switches %s): %s" % (hs.n.tolist(), kind, sw, why),
+                         dict(ctx, switches=list(sw), trainer="ml", floors=thr, counts=hs.n.tolist(), counts_dtype="int64"))
         # ---------------------------------------------------------------- i-vector
         if i % 2 == 0:
             ubm = make_gmm(np.ones(2) / 2, X[:2] + np.array([[0.0] * D, [1.0] * D]), np.ones((2, D)))
